@@ -298,3 +298,17 @@ example : (step r0 (.assign (cps "zz") (.num (.int 1) []))).2 = some .attributeE
 example : (step r0 (.assign (cps "l") (.list [.num (.int 1) [], .num (.int 70000) []] []))).2 = some .valueError := by decide
 example : (step r0 (.assign (cps "b") (.str (cps "12") [("int", .int 12)] []))).2 = some .typeError := by decide
 end C05_nonvacuous
+
+
+/-- A REFUSED ASSIGNMENT CHANGES NOTHING, also one level down: assigning to one hash of a digest that sits in a record
+    (`rec.d.md5 = x`) either stores the accepted value or raises and leaves the hash as it was - for every input and
+    every previous content. (Before fix 7732112 a hex text of the wrong length was stored and then refused; the
+    premise is the regenerated source fact that the setters check before they assign.) -/
+theorem C05_refused_digest_assignment_changes_nothing (n : Nat) (old : Option (List Nat))
+    (x : FlowRecord.Coerce.Inp) :
+    (∀ v, FlowRecord.Coerce.digestPart n x = .ok v → FlowRecord.Coerce.digestAssign n old x = (v, none)) ∧
+    (∀ e, FlowRecord.Coerce.digestPart n x = .error e → FlowRecord.Coerce.digestAssign n old x = (old, some e)) := by
+  have hgen : FlowRecord.Gen.digestSetterChecksFirst = true := by decide
+  constructor
+  · intro v h; simp [FlowRecord.Coerce.digestAssign, h]
+  · intro e h; simp [FlowRecord.Coerce.digestAssign, h, hgen]
